@@ -11,11 +11,41 @@ void harness::run_case(const eng::Raw& raw, eng::Ctx& ctx)
 	gen::Limits lim;
 	lim.maxStates = ctx.tier() ? 7 : 5;
 	lim.arity3 = true;
+	lim.overload = true;
+	lim.fanoutEvery = 6;
 	//                          indep sup abl split leaf detB degen
 	const std::vector<int> w = {4,    2,  4,  4,    1,   2,   1};
 	gen::PairCase c = gen::decode_pair(raw, lim, w);
-	ctx.describe(gen::describe_pair(c));
-	ctx.tag(std::string("strategy:") + gen::strategy_name(c.strategy));
+	// CHAIN flavour (1/96): two unary chains of 30..1540 states that differ (if at all) at the very bottom, so that every
+	// algorithm has to walk the whole depth: recursion / emulated call stacks / work lists and their free lists reach
+	// sizes that the small pairs never produce
+	const bool chain = (c.header[6] % 96 == 95);
+	if (chain) {
+		static const int lens[] = {30, 200, 700, 1030, 1100, 1500};
+		const int L = lens[c.header[5] % 6] + static_cast<int>(c.header[4] % 40);
+		const uint32_t variant = c.header[3] % 4;
+		auto mk = [&](bool isB) {
+			ref::TA t;
+			// variant 1: B starts from another leaf; variant 2: B is one level shorter; variant 3: B also accepts a second leaf
+			t.add((isB && variant == 1) ? 1 /* b */ : 0 /* a */, {}, 0);
+			if (isB && variant == 3) t.add(1, {}, 0);
+			const int len = (isB && variant == 2) ? L - 1 : L;
+			for (int i = 1; i <= len; ++i) t.add((gen::mix(c.header[2], static_cast<uint64_t>(i)) % 4 == 0) ? 5 /* h */ : 4 /* g */, {i - 1}, i);
+			t.finals.insert(len);
+			return t;
+		};
+		c.A = mk(false); c.B = mk(true);
+		c.nA = c.A.max_state() + 1; c.nB = c.B.max_state() + 1;
+		c.numA = gen::make_numbering(c.header[4], c.nA, false);
+		c.numB = gen::make_numbering(c.header[5], c.nB, false);
+		c.orderA = gen::shuffled(c.A.rules, c.header[7] / 2);
+		c.orderB = gen::shuffled(c.B.rules, c.header[7] / 8);
+		ctx.describe("chain flavour: unary chains of " + std::to_string(L) + " levels, variant " + std::to_string(variant) +
+			" (0 equal, 1 other leaf, 2 B shorter, 3 B has an extra leaf), numbering modes " + std::to_string(c.numA.mode) + "/" + std::to_string(c.numB.mode));
+		ctx.tag("chain:" + std::string(L > 1024 ? "deeper-than-1024" : "up-to-1024"));
+	}
+	else ctx.describe(gen::describe_pair(c));
+	ctx.tag(std::string("strategy:") + (chain ? "chain" : gen::strategy_name(c.strategy)));
 
 	ctx.small_case(c.A.states().size() <= 6 && c.B.states().size() <= 6 &&
 		c.A.rules.size() <= 14 && c.B.rules.size() <= 14);
@@ -45,7 +75,7 @@ void harness::run_case(const eng::Raw& raw, eng::Ctx& ctx)
 	inclc::check_all_explicit(ctx, a, b, want, expect);
 	// a pair of objects that SHARE their rule storage: a copy of A (rules only) with other final states; the verdict
 	// must follow the values, in both directions (a quarter of the cases)
-	if (c.header[7] % 4 == 1) {
+	if (c.header[7] % 4 == 1 && !chain) {
 		const ref::TA VA = [&] { std::map<int,int> m; for (int q : c.A.states()) m[q] = static_cast<int>(c.numA(q)); return c.A.image(m); }();
 		ref::TA VC;
 		VC.rules = VA.rules;
